@@ -41,6 +41,8 @@ QWIRINGS = {
     "three-shared-inputs": (["y0", "y1", "y2"], ["o"], ["y0", "y1", "y2"], ["w"], ["y0"]),
     # the divisor owns two dividend outputs and ties them to three outputs of its own by a non-symmetric set of rows
     "owned-pair": ([], ["o", "y1", "y2"], [], ["y1", "y2", "w1", "w2", "w3"], ["w1"]),
+    # the divisor owns both dividend outputs and bounds a *different* weighted sum of them (tactic 3's ratio)
+    "owned-both": (["i"], ["v1", "v2"], ["z"], ["v1", "v2"], []),
 }
 
 CURATED = [
@@ -116,7 +118,7 @@ def jobs(tier, seed):
                     if tier == "quick" and rng.random() < 0.4:
                         continue
                     out.append({"kind": "curated:" + name, "wiring": w, "c": c, "c1": c1, "add": add, "simplify": simp, "tactics": tac})
-    n_rand = 160 if tier == "quick" else 2500
+    n_rand = 180 if tier == "quick" else 2800
     alphabet = BOUNDS[tier]["alphabet"]
     ws = list(QWIRINGS)
     for i in range(n_rand):
@@ -143,6 +145,11 @@ def jobs(tier, seed):
             if rng.random() < 0.5:
                 rng.shuffle(g1)
             c1 = {"in": [], "out": do, "a": [], "g": g1}
+        if w == "owned-both":
+            sg = rng.choice([1, -1])
+            a1, a2, b1, b2 = (rng.choice([1, 2, 3]) for _ in range(4))
+            c = {"in": ci, "out": co, "a": [], "g": [{"v1": sg * a1, "v2": sg * a2, "i": -sg}]}
+            c1 = {"in": di, "out": do, "a": [], "g": [{"v1": sg * b1, "v2": sg * b2, "z": -sg}] + ([{"v2": sg}] if rng.random() < 0.3 else [])}
         if w == "owned-chain":
             sg = lambda: rng.choice([-2, -1, 1, 2])  # noqa: E731
             c = {"in": [], "out": co, "a": [], "g": [{"x": sg(), "v": sg()}] + ([{"x": sg(), "w": sg()}] if rng.random() < 0.3 else [])}
@@ -153,6 +160,8 @@ def jobs(tier, seed):
             tac = rng.choice([[5, 1, 2, 3, 4], [5], [5, 4], None])
         if w == "three-shared-inputs":
             tac = rng.choice([None, [1], [1, 2, 3, 4, 5], [3]])
+        if w == "owned-both":
+            tac = rng.choice([None, [3], [3, 1, 2, 4, 5], [1, 2, 3, 4, 5]])
         out.append({"kind": "random:" + w, "wiring": w, "c": c, "c1": c1, "add": add, "simplify": rng.random() < 0.6, "tactics": tac})
     return out
 
